@@ -681,7 +681,7 @@ func buildShadow(c ShadowCase) (p *Program, bad string) {
 }
 
 func tagOfClosure(f *Closure) string {
-	if len(f.Body) > 0 && f.Body[0].IsList && len(f.Body[0].List) == 2 && f.Body[0].List[0].Atom == "probe" {
+	if len(f.Body) > 0 && f.Body[0].IsList && len(f.Body[0].List) == 2 && (f.Body[0].List[0].Atom == "probe" || f.Body[0].List[0].Atom == "user:probe") {
 		return strings.Trim(f.Body[0].List[1].Atom, `"`)
 	}
 	return ""
@@ -907,9 +907,11 @@ func TestCheck(t *testing.T) {
 	_ = cases
 	vcommon.Main(t, "C19",
 		vcommon.E("registry", enumRegistry, checkRegistry),
-		vcommon.S("defun", 24000, 800000, genDefun(), checkDefun),
-		vcommon.S("shadow", 48000, 1600000, genShadow(), checkShadow),
-		vcommon.S("redef", 16000, 600000, genRedef(), checkRedef),
+		vcommon.S("defun", 20000, 600000, genDefun(), checkDefun),
+		vcommon.S("shadow", 40000, 1200000, genShadow(), checkShadow),
+		vcommon.S("redef", 12000, 400000, genRedef(), checkRedef),
+		vcommon.S("pkg", 12000, 300000, genPkg(), checkPkg),
+		vcommon.S("hbind", 12000, 300000, genHBind(), checkHBind),
 	)
 }
 
